@@ -146,6 +146,15 @@ def run_array(env, res, case, want_readme=False, census=False):
                             res.fail(f'{tag}:read-differs', f'h[{idx!r}] through the stale handle = {describe(np.asarray(got))}, '
                                                             f'the array holds {describe(ref)}', step=step)
                             return
+                elif step == 'h:ctxfail':
+                    # refused calls inside the handle's own open context (nested users that end by an exception)
+                    res.count('mon.refused_calls_inside_context')
+                    with h.open_array():
+                        for bad in (lambda: list(h.iterchunks(0)), lambda: h[10 ** 9], lambda: h.__setitem__(10 ** 9, 1)):
+                            try:
+                                bad()
+                            except Exception:
+                                pass
                 elif step == 'h:copy':
                     res.count('mon.stale_copies')
                     cpath = d / f'copy{nsteps}'
